@@ -125,4 +125,27 @@ example : (512 : Nat) ≤ 65536 ∧ (65536 : Nat) < 2^72 := by decide
 example : toStored 31990 3 = 31993 ∧ (-32768 : Int) ≤ 31993 ∧ (31993 : Int) ≤ 32767 := by decide
 example : (7 * 2^20 : Nat) ≤ 1048576 * 16 := by decide
 
+/-- the ply adjustment of `getScore` followed by that of `setScore` at the same ply gives the stored value back, provided
+    the mate score does not leave the mate range when it is made relative (always the case for real mate scores:
+    |stored| ≥ 31000 and ply ≤ 200) -/
+theorem toStored_fromStored (r p : Int) (hw : r > 16000 → r - p > 16000) (hl : r < -16000 → r + p < -16000) :
+    toStored (fromStored r p) p = r := by
+  rw [fromStored_def]
+  by_cases h1 : r > 16000
+  · rw [if_pos h1, toStored_def, if_pos (hw h1)]; omega
+  · rw [if_neg h1]
+    by_cases h2 : r < -16000
+    · rw [if_pos h2, toStored_def, if_neg (by have := hl h2; omega), if_pos (hl h2)]; omega
+    · rw [if_neg h2, toStored_def, if_neg h1, if_neg h2]
+
+/-- **`TranspositionTable::setBusy` does not move the score**: re-storing, at ply `p`, the score an entry shows at ply
+    `p` leaves the value every later reader sees (at any ply `q`) unchanged — marking an entry as "being searched"
+    deep in the tree must not shift a mate distance. -/
+theorem setBusy_keeps_score (d : W) (p q : Int) (hw : rawScore d > 16000 → rawScore d - p > 16000)
+    (hl : rawScore d < -16000 → rawScore d + p < -16000) (h1 : -32768 ≤ rawScore d) (h2 : rawScore d ≤ 32767) :
+    getScore (setScore d (getScore d p) p) q = getScore d q := by
+  have e : toStored (getScore d p) p = rawScore d := toStored_fromStored _ _ hw hl
+  rw [ply_shift_exact d (getScore d p) p q (by rw [e]; exact h1) (by rw [e]; exact h2), e]
+  rfl
+
 end Props.C08
